@@ -170,6 +170,18 @@ def run(case):
             if fails:
                 break
     # ---------------- sequence_axis_coords
+    # (first a request that is refused - an invalid physical type - on every cube: it leaves no coordinate behind)
+    names_before = [list(c.global_coords.keys()) for c in cubes]
+    for c in cubes:
+        try:
+            c.global_coords.add("refused", "not a physical type", 1 * u.m)
+            fails.append("a global coordinate with an invalid physical type was accepted")
+        except ValueError:
+            pass
+        except Exception as e:
+            fails.append(f"an invalid physical type raised {type(e).__name__}, documented: ValueError")
+    if [list(c.global_coords.keys()) for c in cubes] != names_before:
+        fails.append(f"a refused global_coords.add left a coordinate behind: {[list(c.global_coords.keys()) for c in cubes][0]}")
     try:
         sac = seq.sequence_axis_coords
         want_names = set.intersection(*[set(c.global_coords.keys()) for c in cubes])
